@@ -22,11 +22,12 @@ E == T[l]
 
 TInit == /\ tid \in 1..NTraces /\ l = 1
          /\ LET c == Traces[tid][1].cfg IN
-            /\ cfg = c /\ bar = NewBar(c.max0, c.maxgap) /\ sec = [content |-> <<>>, lines |-> 0]
+            /\ cfg = c /\ bar = NewBar(TMax(0, c.max0), c.maxgap) /\ sec = [content |-> <<>>, lines |-> 0]
             /\ term = TermNew(c.w)
             /\ shown = NoFrame /\ sinceAdv = -1 /\ plog = <<>>
             /\ last = [op |-> "none", arg |-> 0, dt |-> 0, gap |-> -1, frames |-> <<>>, ops |-> <<>>, exc |-> "",
-                       progress |-> 0, maxsteps |-> c.max0, msg |-> <<"m">>, pprog |-> 0, pmax |-> c.max0]
+                       progress |-> 0, maxsteps |-> TMax(0, c.max0), msg |-> <<"m">>, pprog |-> 0,
+                       pmax |-> TMax(0, c.max0)]
 
 Adv == l' = l + 1 /\ tid' = tid
 Is(op) == l <= Len(T) /\ E.op = op
@@ -52,6 +53,7 @@ TStart == /\ l = 1 /\ Is("new") /\ Adv
           /\ last' = [last EXCEPT !.op = "new", !.ops = E.ops, !.msg = E.msg]
           /\ bar' = [bar EXCEPT !.msg = E.msg]
           /\ UNCHANGED <<cfg, sec, shown, sinceAdv, plog>>
+          /\ Check(tid, l, "P.completes", E.exc, E.exc = "")
           /\ Check(tid, l, "H.init", "", OnlyPlain(E.ops) /\ Screen(term') = Visible(FoldAll(cfg.pre, cfg.w)))
 
 \* set_message: not expected to write (A-clause); if an implementation redraws here, the frames count like any other
@@ -73,6 +75,28 @@ TMsg == /\ l > 1 /\ Is("msg") /\ Adv
         /\ Check(tid, l, "P.ansi.line", Where, AnsiLine')
         /\ Check(tid, l, "P.plain.ownline", "other", PlainOwnLine')
         /\ Note(tid, l, "A.msg.silent", E.ops = <<>> /\ E.frames = <<>>)
+
+\* set_format / set_bar_width / character setters between draws (E.conf = the configuration in force afterwards):
+\* not expected to write; whatever is written counts like any other frame
+TConf == /\ l > 1 /\ l <= Len(T) /\ E.op \in {"fmt", "bw", "chars"} /\ Adv
+         /\ cfg' = [cfg EXCEPT !.fmt = E.conf.fmt, !.bw = E.conf.bw, !.chars = E.conf.chars]
+         /\ bar' = IF E.op = "fmt" THEN [bar EXCEPT !.fmtset = FALSE] ELSE bar
+         /\ term' = ApplyOps(term, E.ops)
+         /\ shown' = ShownAfter(E.op, E.frames)
+         /\ plog' = plog \o LinesOf(E.frames)
+         /\ last' = [op |-> E.op, arg |-> 0, dt |-> 0, gap |-> -1, frames |-> E.frames, ops |-> E.ops, exc |-> E.exc,
+                     progress |-> E.progress, maxsteps |-> E.maxsteps, msg |-> E.msg,
+                     pprog |-> last.progress, pmax |-> last.maxsteps]
+         /\ UNCHANGED <<sec, sinceAdv>>
+         /\ Check(tid, l, "P.completes", E.exc, E.exc = "")
+         /\ Check(tid, l, "P.quiet", E.op, QuietNothing')
+         /\ Check(tid, l, "P.frame.shape", "", FrameShape')
+         /\ Check(tid, l, "P.frame.barwidth", "", BarWidthOK')
+         /\ Check(tid, l, "P.frame.step", "", StepOK')
+         /\ Check(tid, l, "P.frame.percent", "", PercentOK')
+         /\ Check(tid, l, "P.ansi.line", Where, AnsiLine')
+         /\ Check(tid, l, "P.plain.ownline", "other", PlainOwnLine')
+         /\ Note(tid, l, "A.conf.silent", E.ops = <<>> /\ E.frames = <<>>)
 
 TCall == /\ l > 1 /\ l <= Len(T) /\ E.op \in Ops /\ Adv
          /\ \E r \in {CallResult(E.op, E.arg, Tick(bar, E.dt), sec)} :
@@ -105,6 +129,6 @@ TCall == /\ l > 1 /\ l <= Len(T) /\ E.op \in Ops /\ Adv
 
 TDone == /\ l = Len(T) + 1 /\ l' = l + 1 /\ tid' = tid /\ UNCHANGED vars /\ Accept(tid)
 
-TNext == TStart \/ TMsg \/ TCall \/ TDone
+TNext == TStart \/ TMsg \/ TConf \/ TCall \/ TDone
 TSpec == TInit /\ [][TNext]_tvars
 =============================================================================
